@@ -184,7 +184,7 @@ func (s *Service) Query(inputs []*requests.Request) ([]map[string]interface{}, e
 		s.mu.Unlock()
 		switch s.faultAt(call, i) {
 		case "errors":
-			errs = gqlerrors.ErrorList{{Message: "injected failure", Path: []interface{}{"x", 1}, Extensions: map[string]interface{}{"code": "INJECTED", "n": float64(i)}}}
+			errs = gqlerrors.ErrorList{{Message: "injected failure", Path: []interface{}{"x", 1}, Extensions: map[string]interface{}{"code": "INJECTED", "n": float64(i), "svc": s.Addr}}}
 			data = nil
 			s.FaultsApplied++
 		case "nulldata":
